@@ -77,7 +77,9 @@ class Grids:
     # ---- G6: chords of 2-3 notes from note forms
     FORMS = (Note('4', pitch='c'), Note('4', pitch='e', acc='-'), Note('8', dots=1, pitch='gg', acc='#'),
              Note('4', pitch='BB', decs=((3, 'L'),)), Note('2', pitch='a', decs=((3, ';'), (0, '('))), Rest('4'),
-             Note('16', pitch='dd', acc='n', decs=((3, 'J'),)))
+             Note('16', pitch='dd', acc='n', decs=((3, 'J'),)),
+             # the same note as the first form, spelled with a signifier: a chord may hold one note twice (unison of two voices)
+             Note('4', pitch='c', decs=((3, "'"),)))
 
     def g_chord(self):
         n = len(self.FORMS)
